@@ -227,6 +227,9 @@ def _run(ctx, case, net):
                             path.index(plan["node"]) if plan else None, case["tx_timeout"],
                             case["route_timeout"], prof["spi_overhead"]))
     ctx.count("messages_judged", len(net.results))
+    ctx.distinct("air_order_digests", net.air_digest())
+    for st in net.radio_states():
+        ctx.distinct("radio_states", st)
     ctx.sample({"nodes": [oct(a) for a in nodes], "tx_timeout": case["tx_timeout"],
                 "route_timeout": case["route_timeout"], "messages": len(net.results),
                 "air_packets": len(net.air.log), "first": case["msgs"][:2]})
